@@ -331,6 +331,7 @@ fn main() {
         let ap = inst.random_abstract(nops, [3, 5, 8, 14][k % 4], 4);
         progs.push(inst.instantiate(&ap));
     }
+    progs.extend(pgen::directed_programs().into_iter().filter(|(p, _, _)| p.nch() > 0).map(|(p, _, _)| p));
     for (k, p) in progs.iter().enumerate() {
         match k % 6 {
             0 => vm_chain::<3, 5>(&mut cx, p, false),
